@@ -76,8 +76,14 @@ func drawOp(t *rapid.T, w OpWeights, label string, hs int, exact bool) POp {
 	case KAdd:
 		op.Txs = []HTx{drawTx(t, label, hs, exact)}
 	case KAddMulti, KAbandon:
-		m := rapid.IntRange(2, 3).Draw(t, "ntx")
+		// 0 tables: an Addition that is committed (or closed) without having written anything;
+		// a transaction may also write no record at all (the table is then skipped)
+		m := rapid.SampledFrom([]int{0, 1, 2, 2, 2, 3, 3}).Draw(t, "ntx")
 		for j := 0; j < m; j++ {
+			if rapid.IntRange(0, 7).Draw(t, "emptyTx") == 3 {
+				op.Txs = append(op.Txs, HTx{})
+				continue
+			}
 			op.Txs = append(op.Txs, drawTx(t, fmt.Sprintf("%s.%d", label, j), hs, exact))
 		}
 	case KCompactRange:
